@@ -38,6 +38,33 @@ theorem nonce_is_valid_key (digest k : Bytes) (h : nonceKey digest = some k) :
     subst hk
     refine ⟨rfl, ?_, ?_⟩ <;> omega
 
+/-! ## child numbers at the 2^31 boundary -/
+
+/-- **the index constructors panic exactly from 2^31 on** (u32 indexes), and otherwise the `u32`
+word of the child is the index for a normal child and the index + 2^31 for a hardened one — so
+`Normal{2^31 − 1}` (word 2^31 − 1) and `Hardened{0}` (word 2^31) are neighbours and different, and
+`ChildNumber::from(word)` gives the child back. -/
+theorem child_from_idx (hardened : Bool) (i : Nat) (h : i < 2^32) :
+    (childFromIdx hardened i = none ↔ 2^31 ≤ i) ∧
+    (∀ c, childFromIdx hardened i = some c →
+      c.toU32 = (if hardened then i + 2^31 else i) ∧ ChildNumber.ofU32 c.toU32 = c ∧ c.isHardened = hardened) := by
+  unfold childFromIdx
+  by_cases hb : i < 2^31
+  · have h1 : ¬ (i / 2^31 % 2 = 1) := by omega
+    refine ⟨by simp [h1]; omega, ?_⟩
+    intro c hc
+    simp only [h1, if_false, Option.some.injEq] at hc
+    subst hc
+    cases hardened
+    · simp [ChildNumber.toU32, ChildNumber.ofU32, ChildNumber.isHardened, h1]
+    · have h2 : (i + 2^31) / 2^31 % 2 = 1 := by omega
+      simp [ChildNumber.toU32, ChildNumber.ofU32, ChildNumber.isHardened, h1]
+      omega
+  · have h1 : i / 2^31 % 2 = 1 := by omega
+    refine ⟨by simp [h1]; omega, ?_⟩
+    intro c hc
+    simp [h1] at hc
+
 /-! ## `BlindingFactor::from_slice` -/
 
 theorem ofBE_append_zeros (d : Bytes) (k : Nat) : ofBE (d ++ replicate k 0) = ofBE d * 256 ^ k := by
